@@ -77,6 +77,12 @@ static void build(void) {
     add(tier, "c0r y x0", 1, 2, 0); add(tier, "c0r y x0", 2, 2, 0); add(tier, "c0y x0 y y", 2, tier ? 3 : 2, 0);
     add(tier, "c0y c0y x1 j0", 2, 2, 0); add(tier, "c0y c0y t1 x0", 2, tier ? 2 : 1, 0); add(tier, "cny cny y", 2, 2, 0);
     add(tier, "c0y d0 c0y x1 y y c0r t2", 1, 2, 1);
+    /* a cancellation request for a thread that has already finished (or never tests for it), then the reap; a thread whose end runs a
+       destructor that yields, reaped while it is in there */
+    for (int W = 1; W <= 2; W++) {
+      add(tier, "c0r y k0 j0", W, 1, 0); add(tier, "c0r y k0 t0", W, 1, 0); add(tier, "c0r y k0 x0 c0r j1", W, 1, 0); add(tier, "c0y k0 j0", W, 2, 0); add(tier, "c0r y k0 d0 c0r j1", W, 1, 0);
+      add(tier, "c0d j0", W, 2, 0); add(tier, "c0d t0", W, 2, 0); add(tier, "c0d d0", W, W == 1 ? 2 : 1, 0); add(tier, "c0d x0 y y y", W, 1, 0); add(tier, "c0d y k0 j0", W, 1, 0);
+    }
     /* the target is itself blocked in a join when it is try-joined / timed-joined / joined / detached */
     for (int W = 1; W <= 2; W++) { add(tier, "c0n t0", W, 2, 0); add(tier, "c0n d0", W, 2, 0); add(tier, "c0n j0", W, W == 1 ? 2 : 1, 0); add(tier, "c0n x0 y y y", W, 1, 0); add(tier, "c0n y t0 c0r j1", W, 1, 0); }
   }
@@ -92,6 +98,8 @@ static myth_thread_t th[8]; static int nth, detached_attr[8], reaped[8], yields_
 static volatile int fin[8], started[8]; static int has_hint[8];
 static const size_t stack_of[] = { 0, 4096, 8192, 12288, 65536, 20000, 70000, 16384, 4097, 20480 };
 
+static myth_key_t ykey13; static volatile int ydtor13;
+static void ydtor(void * v) { (void)v; myth_yield(); myth_yield(); ydtor13++; }
 static void * nested_child(void * a) { (void)a; myth_yield(); myth_yield(); return (void *)4242; }
 static void * body(void * a) {
   int i = (int)(long)a;
@@ -101,7 +109,8 @@ static void * body(void * a) {
   for (int k = 0; k < 96; k++) canary[k] = (unsigned char)(i * 7 + k);
   if (yields_in_body[i] == 2) {   /* nested: the thread itself blocks in a join of a child that yields (status "blocked" while it waits) */
     myth_thread_t c = myth_create(nested_child, 0); void * r = 0; myth_join(c, &r); MV_CHECK(r == (void *)4242, "nested child delivered %p", r);
-  } else if (yields_in_body[i]) myth_yield();
+  } else if (yields_in_body[i] == 3) myth_setspecific(ykey13, (void *)(long)(i + 1));   /* the thread's end runs a destructor that yields: reaping may be attempted while it is in there */
+  else if (yields_in_body[i]) myth_yield();
   for (int k = 0; k < 96; k++) MV_CHECK(canary[k] == (unsigned char)(i * 7 + k), "thread %d: local data changed across a switch (stack reused or overwritten while in use)", i);
   mv_point(&fin[i], sizeof(int));
   fin[i] = 1;
@@ -117,6 +126,7 @@ static void check_result(int i, void * r, const char * how) {
 static void run(int tier, int prog) {
   build(); cur = &P[tier][prog];
   mv_start(cur->W);
+  myth_key_create(&ykey13, ydtor);
   long base_d = mv_ledger_outstanding(0), base_s = mv_ledger_outstanding(1);
   long fresh_after_first_d = -1, fresh_after_first_s = -1; int reaps = 0;
   char buf[64]; strncpy(buf, cur->ops, sizeof buf - 1); buf[63] = 0;
@@ -126,7 +136,7 @@ static void run(int tier, int prog) {
     switch (tok[0]) {
     case 'c': {
       int me = nth++;
-      yields_in_body[me] = tok[2] == 'y' ? 1 : (tok[2] == 'n' ? 2 : 0);
+      yields_in_body[me] = tok[2] == 'y' ? 1 : (tok[2] == 'n' ? 2 : (tok[2] == 'd' ? 3 : 0));
       if (tok[1] == 'n') {
 	myth_thread_attr_t a; memset(&a, 0x5A, sizeof a); myth_thread_attr_init(&a);
 	myth_thread_attr_setdetachstate(&a, PTHREAD_CREATE_DETACHED);
@@ -167,9 +177,10 @@ static void run(int tier, int prog) {
       }
       reaped[i] = 1; break; }
     case 'x': { int f0 = fin[i]; int rc = myth_detach(th[i]); MV_CHECK(rc == 0, "detach returned %d", rc); reaped[i] = 1; mv_cover(f0 ? 7 : 8); break; }
+    case 'k': { int rc = myth_cancel(th[i]); MV_CHECK(rc == 0, "myth_cancel returned %d", rc); break; }   /* a cancellation request: no effect on a thread that has finished or never tests for it */
     case 'y': myth_yield(); break;
     }
-    if (tok[0] != 'c' && tok[0] != 'y') {
+    if (tok[0] != 'c' && tok[0] != 'y' && tok[0] != 'k') {
       reaps++;
       if (cur->recycle_check) {
 	/* let a detached target finish and release its record and stack before the snapshot / before the next creation:
